@@ -61,6 +61,7 @@ InitPrimed ==
     /\ dl' = {}
     /\ handlers' = <<>>
     /\ ctxDone' = [h \in Handlers |-> FALSE]
+    /\ kind' = [h \in Handlers |-> "live"]
     /\ removed' = [h \in Handlers |-> FALSE]
     /\ pc' = [h \in Handlers |-> "none"]
     /\ queue' = [h \in Handlers |-> <<>>]
@@ -139,7 +140,7 @@ TDeliverCall ==
     /\ IsEvent("DeliverCall") /\ Ev.m \in Allocated
     /\ budget' = [budget EXCEPT ![Ev.m] = @ + 1]
     /\ sc' = sc \cup {[c |-> Ev.c, s |-> Ev.m.s, m |-> Ev.m, st |-> "alloc", fail |-> FALSE]}
-    /\ UNCHANGED <<counter, dl, handlers, ctxDone, removed, pc, queue, cur, seen, ninv, stale, acc, chkOn, regP, canP, book>>
+    /\ UNCHANGED <<counter, dl, handlers, ctxDone, kind, removed, pc, queue, cur, seen, ninv, stale, acc, chkOn, regP, canP, book>>
 TDeliverRet ==
     /\ IsEvent("DeliverRet")
     /\ \E p \in sc : p.c = Ev.c /\ Finished(p) /\ sc' = sc \ {p}
@@ -148,7 +149,7 @@ TDeliverRet ==
 TTick ==
     /\ IsEvent("Tick")
     /\ budget' = [m \in Msgs |-> IF m \in Allocated THEN budget[m] + 1 ELSE budget[m]]
-    /\ UNCHANGED <<counter, dl, handlers, ctxDone, removed, pc, queue, cur, seen, ninv, stale, acc, chkOn, regP, canP, sc, book>>
+    /\ UNCHANGED <<counter, dl, handlers, ctxDone, kind, removed, pc, queue, cur, seen, ninv, stale, acc, chkOn, regP, canP, sc, book>>
 
 ---- \* handler function
 TInvokeStart ==
@@ -169,7 +170,7 @@ TChk ==
                THEN UNCHANGED <<pc, cur>>
                ELSE /\ pc' = [pc EXCEPT ![h] = "checked"]
                     /\ cur' = [cur EXCEPT ![h] = Head(queue[h])]
-    /\ UNCHANGED <<counter, budget, dl, handlers, ctxDone, removed, seen, ninv, stale, acc, chkOn, regP, canP, sc, book>>
+    /\ UNCHANGED <<counter, budget, dl, handlers, ctxDone, kind, removed, seen, ninv, stale, acc, chkOn, regP, canP, sc, book>>
 
 ---- \* observations
 TObsQueue ==
@@ -195,7 +196,7 @@ TObsHandlers ==
           /\ handlers' = obs
           /\ removed' = [h \in Handlers |-> removed[h] \/ h \in gone]
           /\ pc' = [h \in Handlers |-> IF h \in gone /\ Lifecycle = "inline" THEN "exited" ELSE pc[h]]
-    /\ UNCHANGED <<counter, budget, dl, ctxDone, queue, cur, seen, ninv, stale, acc, chkOn, regP, canP, sc, book>>
+    /\ UNCHANGED <<counter, budget, dl, ctxDone, kind, queue, cur, seen, ninv, stale, acc, chkOn, regP, canP, sc, book>>
 
 ---- \* silent steps
 \* asynchronous publications (retransmission goroutines) use only what a Tick granted:
